@@ -10,7 +10,7 @@ pub struct C06;
 
 const TOWER: [&str; 6] = ["Bool", "Nat", "Int", "Ratio", "Float", "Complex"];
 const CLASSES: [&str; 4] = ["Str", "NoneType", "Never", "Obj"];
-const TRAITS: [&str; 5] = ["Eq", "Ord", "Hash", "Show", "Num"];
+const TRAITS: [&str; 6] = ["Eq", "Ord", "Hash", "Show", "Num", "PartialOrd"];
 
 #[derive(Serialize, Deserialize, Clone, Debug, PartialEq)]
 pub enum T {
@@ -38,7 +38,7 @@ impl T {
         match self {
             T::Tower(i) => TOWER[*i as usize % 6].into(),
             T::Class(i) => CLASSES[*i as usize % 4].into(),
-            T::Trait(i) => TRAITS[*i as usize % 5].into(),
+            T::Trait(i) => TRAITS[*i as usize % 6].into(),
             T::EnumInt(v) => format!("{{{}}}", v.iter().map(|i| i.to_string()).collect::<Vec<_>>().join(", ")),
             T::EnumStr(v) => format!("{{{}}}", v.iter().map(|i| format!("\"{}\"", ["a", "b", "", "zz"][*i as usize % 4])).collect::<Vec<_>>().join(", ")),
             T::Interval(lo, w) => format!("{lo}..{}", lo + *w as i64),
@@ -97,6 +97,13 @@ impl T {
             (T::Or(Box::new(other.clone()), Box::new(self.clone())), "union-intro-right"),
             (T::Class(3), "top"),
         ];
+        // candidate steps whose premise is the checker's own answer (not a documented law)
+        match self {
+            T::Tower(_) => opts.push((T::Trait((sel >> 8) as u8 % 6), "class-to-trait?")),
+            T::Trait(i) if *i % 6 == 1 => opts.push((T::Trait(5), "supertrait?")),
+            T::Trait(i) if *i % 6 == 5 => opts.push((T::Trait(0), "supertrait?")),
+            _ => {}
+        }
         match self {
             T::Tower(i) if (*i % 6) < 5 => {
                 opts.push((T::Tower(i % 6 + 1), "tower"));
@@ -133,7 +140,7 @@ fn atom() -> impl Strategy<Value = T> {
     prop_oneof![
         4 => (0u8..6).prop_map(T::Tower),
         3 => (0u8..4).prop_map(T::Class),
-        2 => (0u8..5).prop_map(T::Trait),
+        2 => (0u8..6).prop_map(T::Trait),
         2 => proptest::collection::btree_set(-3i64..8, 1..4).prop_map(|s| T::EnumInt(s.into_iter().collect())),
         1 => proptest::collection::btree_set(0u8..4, 1..3).prop_map(|s| T::EnumStr(s.into_iter().collect())),
         2 => (-3i64..6, 0u8..6).prop_map(|(a, w)| T::Interval(a, w)),
@@ -181,10 +188,10 @@ impl Property for C06 {
         "C06"
     }
     fn rule(&self) -> String {
-        "types of nesting depth <= 2 over the tower classes, Str, NoneType, Never, Obj, the traits Eq/Ord/Hash/Show/Num, integer/string enums, integer intervals, immutable containers ([T; n], List(T), (T, U), {Str: T}, {T; n}), unions and intersections. The judgement `S <: T` is observed as acceptance of `g(x: S): T = x`. Laws: reflexivity; Never <: T <: Obj; T <: (T or U) and U <: (T or U); (T and U) <: T and <: U; enum/interval below the class of its values; every pair of the numeric tower; transitivity over chains built from documented steps up (tower, union introduction, intersection elimination, enum to class, enum growth, top) and over random triples (conclusion required only when both premises were accepted). Non-trivial = law instance judged on a type that is not a bare class (or any transitivity instance with both premises accepted); distinct by case".into()
+        "types of nesting depth <= 2 over the tower classes, Str, NoneType, Never, Obj, the traits Eq/Ord/Hash/Show/Num/PartialOrd, integer/string enums, integer intervals, immutable containers ([T; n], List(T), (T, U), {Str: T}, {T; n}), unions and intersections. The judgement `S <: T` is observed as acceptance of `g(x: S): T = x`. Laws: reflexivity; Never <: T <: Obj; T <: (T or U) and U <: (T or U); (T and U) <: T and <: U; enum/interval below the class of its values; every pair of the numeric tower; transitivity over chains built from documented steps up (tower, union introduction, intersection elimination, enum to class, enum growth, top), over chains through candidate class-to-trait and supertrait steps, and over random triples (conclusion required only when both premises were accepted). Non-trivial = law instance judged on a type that is not a bare class (or any transitivity instance with both premises accepted); distinct by case".into()
     }
     fn strategy(&self, _tier: Tier) -> BoxedStrategy<Case> {
-        (0u8..10, ty(), ty(), ty(), any::<u32>(), any::<u32>()).prop_map(|(law, a, b, c, s1, s2)| Case { law: if law >= 6 { 6 } else { law }, a, b, c, s1, s2 }).boxed()
+        (0u8..10, prop_oneof![2 => atom().boxed(), 3 => ty().boxed()], ty(), ty(), any::<u32>(), any::<u32>()).prop_map(|(law, a, b, c, s1, s2)| Case { law: if law >= 6 { 6 } else { law }, a, b, c, s1, s2 }).boxed()
     }
     fn cases(&self, tier: Tier) -> usize {
         tier.pick(3_000, 60_000)
@@ -254,7 +261,7 @@ impl Property for C06 {
             _ => {
                 // transitivity: chain by construction (even selector) or random triple
                 let (x, y, z, how) = if case.s1 % 4 != 0 {
-                    let (y, h1) = a.step_up(case.s1 >> 2, b);
+                    let (y, h1) = a.step_up(case.s1.wrapping_mul(2654435761), b);
                     let (z, h2) = y.step_up(case.s2, &case.c);
                     (a.clone(), y, z, format!("{h1}+{h2}"))
                 } else {
@@ -275,7 +282,7 @@ impl Property for C06 {
                     }
                     return Outcome::pass(true).classes(classes).class("premises:both-accepted");
                 }
-                if how != "random-triple" {
+                if how != "random-triple" && !how.contains('?') {
                     // the steps are documented laws themselves
                     let (bad, src, desc) = if j1 != Some(true) { (j1, s1, how.split('+').next().unwrap().to_string()) } else { (j2, s2, how.split('+').nth(1).unwrap().to_string()) };
                     if bad.is_none() {
@@ -295,6 +302,8 @@ impl Property for C06 {
             if j != Some(true) {
                 let sig = if s.refinement_in_composite() || t.refinement_in_composite() {
                     "a law instance is not accepted when a literal enum / interval type occurs inside a union or intersection".to_string()
+                } else if law == "intersection-elim" && (matches!(a, T::Or(..) | T::And(..)) || matches!(b, T::Or(..) | T::And(..))) {
+                    "intersection-elim: `(T and U) <: T` / `<: U` not accepted when T or U is itself a union or intersection of classes and traits".to_string()
                 } else {
                     format!("{law}: `{desc}` not accepted [{} / {}]", s.kind(), t.kind())
                 };
